@@ -522,7 +522,8 @@ def expand(template_path, repo):
             rel, qn = parts[1], parts[2]
             opts = parts[3:]
             qual, name = qn.rsplit('::', 1)
-            external = 'external' in opts
+            external = 'external' in opts or 'nobody' in opts
+            nobody = 'nobody' in opts
             retname = 'r'
             nth = None
             from_unit = None
@@ -548,6 +549,9 @@ def expand(template_path, repo):
             head = norm.vis(sf.text[sp['sig_start']:sp['params_close'] + 1])
             body = sf.text[sp['body_open']:sp['body_close'] + 1]
             body = norm.body(body)
+            if nobody:
+                # assumed function whose body cannot even be type-checked against this unit's opaque types
+                body = '{ unimplemented!() }'
             sig = head
             if sp['ret'] is not None:
                 sig += f' -> ({retname}: {sp["ret"]})'
